@@ -15,6 +15,13 @@ REPO = os.environ.get("VINEGAR_REPO", "/repo")
 
 
 def main():
+    if os.environ.get("COVERAGE_PROCESS_START"):
+        # optional measurement of which vinegar lines the checks execute (bin/coverage); never set by the checks
+        try:
+            import coverage
+            coverage.process_startup()
+        except Exception:  # noqa
+            pass
     modname, env = sys.argv[1], sys.argv[2]
     prop = importlib.import_module(modname)
     prop.worker_setup(env)          # may patch the stdlib; must run before vinegar is imported
